@@ -91,6 +91,55 @@ def ty(t: Any, depth: int = 0) -> Any:
     return {"k": k, "str": str(t)}
 
 
+# ---- derived / recomputed attributes --------------------------------------------------------------------
+# Attributes that are *not* written to the cache but recomputed on load (constructors, fixup.py) are part of what
+# importing code sees.  Besides the ones dumped explicitly (special_alias, mro, info links …), every remaining
+# scalar attribute (None/bool/int/str) of a node is dumped reflectively, so that a recomputation that is dropped
+# or changed shows up without this file knowing the attribute by name.
+NOT_INTERFACE = {
+    # source positions and per-run caches / bookkeeping
+    "line", "column", "end_line", "end_column", "_is_recursive", "is_cache_skeleton", "unfixed",
+    # only meaningful while the defining module itself is being analysed / checked (never read through an import)
+    "is_unreachable", "is_top_level", "is_explicit_override", "is_dynamic", "def_or_infer_vars", "is_borrowed",
+    "unanalyzed_type", "deco_line", "max_pos", "min_args", "is_partial_stub_package", "bad_mro",
+    "is_inferred_def", "was_inferred", "def_line", "expanded", "original_def", "is_self_alias",
+    # read by stubtest only (which analyses the stubs itself, never through the cache)
+    "is_type_check_only",
+}
+
+
+def all_slots(o: Any) -> list[str]:
+    out: list[str] = []
+    for k in type(o).__mro__:
+        sl = k.__dict__.get("__slots__", ())
+        out += [sl] if isinstance(sl, str) else list(sl)
+    out += list(getattr(o, "__dict__", {}))
+    return out
+
+
+def derived(o: Any, handled: set[str]) -> dict[str, Any]:
+    out: dict[str, Any] = {}
+    for a in all_slots(o):
+        b = a.lstrip("_")
+        if a in handled or b in handled or a in NOT_INTERFACE or b in NOT_INTERFACE:
+            continue
+        try:
+            v = getattr(o, a)
+        except AttributeError:
+            continue
+        if v is None or isinstance(v, (bool, int, str)):
+            out[b] = v
+    return out
+
+
+def special_alias(a: Any) -> Any:
+    if a is None:
+        return None
+    return {"fullname": a.fullname, "module": a.module, "target": ty(a.target), "alias_tvars": [ty(v) for v in a.alias_tvars],
+            "tvar_tuple_index": a.tvar_tuple_index, "no_args": a.no_args, "normalized": a.normalized,
+            "python_3_12_type_alias": a.python_3_12_type_alias, "eager": a.eager}
+
+
 def dt_spec(s: Any) -> Any:
     if s is None:
         return None
@@ -110,18 +159,27 @@ def node(n: Any, depth: int = 0) -> Any:
     if isinstance(n, N.Var):
         return {"k": k, "name": n.name, "fullname": n.fullname, "type": ty(n.type), "setter_type": ty(n.setter_type),
                 "flags": {f: getattr(n, f) for f in N.VAR_FLAGS}, "final_value": [type(n.final_value).__name__, repr(n.final_value)],
-                "info": info_name(n)}
+                "info": info_name(n),
+                "derived": derived(n, {"name", "fullname", "type", "setter_type", "final_value", "info"} | set(N.VAR_FLAGS))}
     if isinstance(n, N.FuncDef):
         return {"k": k, "name": n.name, "fullname": n.fullname, "type": ty(n.type),
                 "flags": {f: getattr(n, f) for f in N.FUNCDEF_FLAGS}, "arg_names": list(n.arg_names),
                 "arg_kinds": [int(x.value) for x in n.arg_kinds], "abstract_status": n.abstract_status,
                 "dataclass_transform_spec": dt_spec(n.dataclass_transform_spec), "deprecated": n.deprecated,
-                "original_first_arg": n.original_first_arg, "info": info_name(n)}
+                "original_first_arg": n.original_first_arg, "info": info_name(n),
+                "definition_link": (n.type.definition.fullname if isinstance(n.type, T.CallableType) and n.type.definition is not None
+                                    else None),
+                "derived": derived(n, {"name", "fullname", "type", "arg_names", "arg_kinds", "abstract_status",
+                                       "dataclass_transform_spec", "deprecated", "original_first_arg", "info", "arguments",
+                                       "body", "type_args"} | set(N.FUNCDEF_FLAGS))}
     if isinstance(n, N.OverloadedFuncDef):
         return {"k": k, "fullname": n.fullname, "type": ty(n.type), "items": [node(i, depth + 1) for i in n.items],
                 "impl": node(n.impl, depth + 1) if n.impl is not None else None,
                 "flags": {f: getattr(n, f) for f in N.FUNCBASE_FLAGS}, "deprecated": n.deprecated,
-                "setter_index": n.setter_index, "info": info_name(n)}
+                "setter_index": n.setter_index, "info": info_name(n),
+                "is_trivial_self": n.is_trivial_self,       # computed on demand from the items (cached in _is_trivial_self)
+                "derived": derived(n, {"fullname", "type", "items", "impl", "deprecated", "setter_index", "info",
+                                       "unanalyzed_items", "is_trivial_self"} | set(N.FUNCBASE_FLAGS))}
     if isinstance(n, N.Decorator):
         v = node(n.var, depth + 1)
         # `var.info` of a decorator is not serialised; fix-up sets it for every decorator while semantic analysis
@@ -134,18 +192,33 @@ def node(n: Any, depth: int = 0) -> Any:
                 "defn": {"name": d.name, "fullname": d.fullname, "type_vars": [ty(v) for v in d.type_vars]},
                 "abstract_attributes": [list(a) for a in n.abstract_attributes], "type_vars": list(n.type_vars),
                 "has_param_spec_type": n.has_param_spec_type, "bases": [ty(b) for b in n.bases],
-                "mro": [c.fullname for c in n.mro], "promote": [ty(p) for p in n._promote], "alt_promote": ty(n.alt_promote),
+                "mro": [c.fullname for c in n.mro],
+                # used as a set (subtypes/meet/join test membership): fix-up appends the back-promotions of native ints in load order
+                "promote": sorted((ty(p) for p in n._promote), key=repr), "alt_promote": ty(n.alt_promote),
                 "declared_metaclass": ty(n.declared_metaclass), "metaclass_type": ty(n.metaclass_type),
                 "tuple_type": ty(n.tuple_type), "typeddict_type": ty(n.typeddict_type),
                 "flags": {f: getattr(n, f) for f in N.TypeInfo.FLAGS}, "metadata": n.metadata,
                 "slots": sorted(n.slots) if n.slots is not None else None,
                 "deletable_attributes": list(n.deletable_attributes), "self_type": ty(n.self_type),
                 "dataclass_transform_spec": dt_spec(n.dataclass_transform_spec), "deprecated": n.deprecated,
+                # recomputed on load, not serialised
+                "special_alias": special_alias(n.special_alias),
+                "enum_members": list(n.enum_members) if n.is_enum else None,
+                "protocol_members": list(n.protocol_members) if n.is_protocol else None,
+                "is_generic": n.is_generic(), "is_metaclass": n.is_metaclass(),
+                "derived": derived(n, {"fullname", "module_name", "defn", "abstract_attributes", "type_vars",
+                                       "has_param_spec_type", "bases", "mro", "mro_refs", "promote", "alt_promote",
+                                       "declared_metaclass", "metaclass_type", "tuple_type", "typeddict_type", "metadata",
+                                       "slots", "deletable_attributes", "self_type", "dataclass_transform_spec",
+                                       "deprecated", "special_alias", "names", "assuming", "assuming_proper", "inferring",
+                                       "type_object_type", "default_depends", "typeddict_data"} | set(N.TypeInfo.FLAGS)),
                 "names": table(n.names, n.fullname, depth + 1) if depth < 6 else "<deep>"}
     if isinstance(n, N.TypeAlias):
         return {"k": k, "fullname": n.fullname, "module": n.module, "target": ty(n.target),
                 "alias_tvars": [ty(v) for v in n.alias_tvars], "no_args": n.no_args, "normalized": n.normalized,
-                "python_3_12_type_alias": n.python_3_12_type_alias}
+                "python_3_12_type_alias": n.python_3_12_type_alias,
+                "derived": derived(n, {"fullname", "module", "target", "alias_tvars", "no_args", "normalized",
+                                       "python_3_12_type_alias", "default_depends"})}
     if isinstance(n, N.TypeVarExpr):
         return {"k": k, "name": n.name, "fullname": n.fullname, "values": [ty(v) for v in n.values],
                 "upper_bound": ty(n.upper_bound), "default": ty(n.default), "variance": n.variance}
@@ -193,6 +266,20 @@ def module(f: N.MypyFile) -> dict[str, Any]:
     return {"fullname": f.fullname, "is_stub": f.is_stub, "path": f.path,
             "is_partial_stub_package": f.is_partial_stub_package,
             "future_import_flags": sorted(f.future_import_flags), "names": table(f.names, f.fullname)}
+
+
+def canon_pair(a: Any, b: Any) -> None:
+    """in-place canonicalisation of a (fresh, reloaded) pair: `CallableType.definition` (error-message context only) is
+    linked by fix-up for every function, by semantic analysis only for some — compare it only where the fresh tree has it"""
+    if isinstance(a, dict) and isinstance(b, dict):
+        if "definition_link" in a and "definition_link" in b and a["definition_link"] is None:
+            b["definition_link"] = None
+        for k in a:
+            if k in b:
+                canon_pair(a[k], b[k])
+    elif isinstance(a, list) and isinstance(b, list):
+        for x, y in zip(a, b):
+            canon_pair(x, y)
 
 
 def diff(a: Any, b: Any, path: str = "") -> list[tuple[str, str, str]]:
